@@ -47,6 +47,8 @@ type Model struct {
 	Order  []string // creation order, pruned ones included
 	Pruned map[string]bool
 	Root   string // project root (absolute), for file URLs and result files
+	// NoStore: no .ergo directory exists yet; only init can succeed.
+	NoStore bool
 }
 
 func NewModel(root string) *Model {
@@ -54,7 +56,7 @@ func NewModel(root string) *Model {
 }
 
 func (m *Model) Clone() *Model {
-	c := &Model{Items: map[string]*MItem{}, Pruned: map[string]bool{}, Root: m.Root}
+	c := &Model{Items: map[string]*MItem{}, Pruned: map[string]bool{}, Root: m.Root, NoStore: m.NoStore}
 	c.Order = append([]string(nil), m.Order...)
 	for k, v := range m.Pruned {
 		c.Pruned[k] = v
@@ -493,6 +495,17 @@ func (m *Model) Predict(c Cmd) Pred {
 			prop = "C11"
 		}
 		return fail(prop, "stdin is not a single well-formed JSON object with known keys")
+	}
+	if m.NoStore {
+		switch c.Op {
+		case "init":
+			n := m.Clone()
+			n.NoStore = false
+			return Pred{Class: MustOK, Prop: "C18", Alts: []*Model{n}}
+		case "quickstart":
+		default:
+			return fail("C18", "no .ergo directory exists yet")
+		}
 	}
 	switch c.Op {
 	case "init", "compact", "where", "quickstart":
